@@ -105,7 +105,18 @@ impl<L: Language> Pattern<L> {
 impl<L: Language> RecExpr<L> {
     pub fn parse(s: &str) -> Result<Self, ParseError> {
         let pat = Pattern::parse(s)?;
+        if !is_term(&pat) {
+            // pattern variables and substitutions are not terms.
+            return Err(ParseError::ParseState(tokenize(s)?));
+        }
         Ok(pattern_to_re(&pat))
+    }
+}
+
+fn is_term<L: Language>(pat: &Pattern<L>) -> bool {
+    match pat {
+        Pattern::ENode(_, children) => children.iter().all(is_term),
+        Pattern::PVar(_) | Pattern::Subst(..) => false,
     }
 }
 
@@ -140,7 +151,7 @@ fn parse_pattern<L: Language>(tok: &[Token]) -> Result<(Pattern<L>, &[Token]), P
         let (l, tok2) = parse_pattern(tok)?;
         tok = tok2;
 
-        let Token::ColonEquals = &tok[0] else {
+        let Some(Token::ColonEquals) = tok.get(0) else {
             return Err(ParseError::ExpectedColonEquals(to_vec(tok)));
         };
         tok = &tok[1..];
@@ -148,7 +159,7 @@ fn parse_pattern<L: Language>(tok: &[Token]) -> Result<(Pattern<L>, &[Token]), P
         let (r, tok2) = parse_pattern(tok)?;
         tok = tok2;
 
-        let Token::RBracket = &tok[0] else {
+        let Some(Token::RBracket) = tok.get(0) else {
             return Err(ParseError::ExpectedRBracket(to_vec(tok)));
         };
         tok = &tok[1..];
@@ -161,24 +172,26 @@ fn parse_pattern<L: Language>(tok: &[Token]) -> Result<(Pattern<L>, &[Token]), P
 fn parse_pattern_nosubst<L: Language>(
     mut tok: &[Token],
 ) -> Result<(Pattern<L>, &[Token]), ParseError> {
-    if let Token::PVar(p) = &tok[0] {
+    if let Some(Token::PVar(p)) = tok.get(0) {
         let pat = Pattern::PVar(p.to_string());
         return Ok((pat, &tok[1..]));
     }
 
-    if let Token::LParen = tok[0] {
+    if let Some(Token::LParen) = tok.get(0) {
         tok = &tok[1..];
 
-        let Token::Ident(op) = &tok[0] else {
+        let Some(Token::Ident(op)) = tok.get(0) else {
             return Err(ParseError::ParseState(to_vec(tok)));
         };
         tok = &tok[1..];
 
         let mut syntax_elems = vec![NestedSyntaxElem::String(op.to_string())];
         loop {
-            if let Token::RParen = tok[0] {
-                break;
-            };
+            match tok.get(0) {
+                Some(Token::RParen) => break,
+                None => return Err(ParseError::ParseState(to_vec(tok))),
+                _ => {}
+            }
 
             let (se, tok2) = parse_nested_syntax_elem(tok)?;
             tok = tok2;
@@ -195,8 +208,8 @@ fn parse_pattern_nosubst<L: Language>(
             })
             .collect();
         let node = L::from_syntax(&syntax_elems_mock)
-            .ok_or_else(|| ParseError::FromSyntaxFailed(syntax_elems_mock))?;
-        let syntax_elems = syntax_elems
+            .ok_or_else(|| ParseError::FromSyntaxFailed(syntax_elems_mock.clone()))?;
+        let syntax_elems: Vec<Pattern<L>> = syntax_elems
             .into_iter()
             .filter_map(|x| match x {
                 NestedSyntaxElem::Pattern(pat) => Some(pat),
@@ -204,10 +217,14 @@ fn parse_pattern_nosubst<L: Language>(
                 NestedSyntaxElem::Slot(_) => None,
             })
             .collect();
+        // `from_syntax` ignores surplus arguments; the node must take exactly the children we parsed.
+        if node.applied_id_occurrences().len() != syntax_elems.len() {
+            return Err(ParseError::FromSyntaxFailed(syntax_elems_mock));
+        }
         let re = Pattern::ENode(node, syntax_elems);
         Ok((re, tok))
     } else {
-        let Token::Ident(op) = &tok[0] else {
+        let Some(Token::Ident(op)) = tok.get(0) else {
             return Err(ParseError::ParseState(to_vec(tok)));
         };
         tok = &tok[1..];
@@ -215,6 +232,9 @@ fn parse_pattern_nosubst<L: Language>(
         let elems = [SyntaxElem::String(op.to_string())];
         let node =
             L::from_syntax(&elems).ok_or_else(|| ParseError::FromSyntaxFailed(to_vec(&elems)))?;
+        if !node.applied_id_occurrences().is_empty() {
+            return Err(ParseError::FromSyntaxFailed(to_vec(&elems)));
+        }
         let pat = Pattern::ENode(node, Vec::new());
         Ok((pat, tok))
     }
@@ -230,7 +250,7 @@ enum NestedSyntaxElem<L: Language> {
 fn parse_nested_syntax_elem<L: Language>(
     tok: &[Token],
 ) -> Result<(NestedSyntaxElem<L>, &[Token]), ParseError> {
-    if let Token::Slot(slot) = &tok[0] {
+    if let Some(Token::Slot(slot)) = tok.get(0) {
         return Ok((NestedSyntaxElem::Slot(*slot), &tok[1..]));
     }
 
